@@ -246,6 +246,7 @@ def oracle_case(tr):
     closed = False                  # some flush failed (scripted callback mirrors txn.go: committer closed)
     gens = []
     cache_shadow, stale = {}, set()
+    have_primary, flight_noprim = False, False   # observation O1: a generation flushed before any lock-writing mutation exists is refused
     pyflag, cne = set(), set()      # keys flagged presumeKeyNotExists in the mutable buffer; keys ever flushed as CheckNotExists
     for idx, (name, a, res) in enumerate(tr["ops"]):
         if res and (res[0].startswith("panic") or res[0].startswith("err:")):
@@ -307,7 +308,7 @@ def oracle_case(tr):
                 a = ["0"]
             if inflight:
                 inflight = False
-                eff = (a[0] == "1") and not closed
+                eff = (a[0] == "1") and not closed and not flight_noprim
                 if not eff:
                     pend_err = True; closed = True; poisoned = True
         elif name == "flush":
@@ -317,7 +318,7 @@ def oracle_case(tr):
             waited = inflight and (trig == "1" or status == "1")
             if waited:
                 inflight = False
-                eff = (wo == "1") and not closed
+                eff = (wo == "1") and not closed and not flight_noprim
                 if not eff:
                     pend_err = True; closed = True; poisoned = True
             n += 1
@@ -342,13 +343,19 @@ def oracle_case(tr):
                 if muts != "-" and [kvp.split("=")[0] for kvp in muts.split(",")] != sorted(hand):
                     fails.append({"oracle": "C16_flush_once", "op_index": idx, "detail": "flush %s mutations not in key order / duplicated: %s" % (g, muts)})
                 cne |= {k for k, val in cur.items() if val == "_" and k in pyflag}
+                flight_noprim = False
+                if not closed and not have_primary and cur:
+                    if any(not (val == "_" and k in pyflag) for k, val in cur.items()):
+                        have_primary = True
+                    else:
+                        flight_noprim = True
                 cur, pyflag = {}, set()
                 inflight = True
         elif name == "flushwait":
             n += 1
             if inflight:
                 inflight = False
-                eff = (a[0] == "1") and not closed
+                eff = (a[0] == "1") and not closed and not flight_noprim
                 if not eff:
                     pend_err = True; closed = True; poisoned = True
             if (res[0] == "err") != pend_err:
